@@ -94,6 +94,12 @@ class TravBase(Check):
                 r_ = rng.getrandbits(63)
                 qs += list(trav_queries(nv, range(nv), unis[:1], [(1, 1)], via=str(r_ - r_ % 5 + 2)))
             qs += list(trav_queries(nv, range(nv), unis[:2], [(0, 1), (1, 0), (2, 1)], via=str(via)))
+            # a read-only ff_via that itself calls neighbors() on the vertex being expanded (k % 11 == 4)
+            r_ = rng.getrandbits(63)
+            r_ = r_ - r_ % 11 + 4
+            while r_ % 5 == 2 or r_ % 7 == 3:
+                r_ += 11
+            qs += list(trav_queries(nv, range(nv), unis[:1], [(0, 1), (2, 1)], via=str(r_)))
             qs += list(trav_queries(nv, range(nv), unis[:2], [(0, 1), (1, 0)], res=str(res)))
             qs += list(trav_queries(nv, range(nv), unis[:1], [(1, 1)], via=str(via), res=str(res), listmode="gen"))
         else:
@@ -103,6 +109,7 @@ class TravBase(Check):
 
     def batches(self, tier, rng, real):
         quick = tier == "quick"
+        real.inner.plain_filters = True      # no faults and no pickling in these scripts
         # exhaustive: ordered link lists
         plan = [(2, 2, None), (3, 2, None)] if quick else [(2, 3, None), (3, 3, None), (4, 2, None)]
         for nv, ml, _ in plan:
